@@ -42,10 +42,13 @@ def sk(text):
 SKELETONS = {
     "table": ("", sk("k:CREATE k:TABLE s1 . t1 ( a int k:NOT k:NULL k:DEFAULT l:'x~y' , b varchar ( 10 ) k:PRIMARY k:KEY , c decimal ( 10 , 2 ) "
                      "k:REFERENCES o ( id ) k:ON s:DELETE CASCADE , k:CONSTRAINT k1 k:UNIQUE ( a , c ) ) ;")),
+    "table_fk": ("", sk("k:CREATE k:TABLE t1 ( a int k:REFERENCES o ( id ) k:ON k:UPDATE CASCADE k:ON s:DELETE RESTRICT , b int k:DEFAULT 5 k:NOT k:NULL , "
+                        "k:FOREIGN k:KEY ( b ) k:REFERENCES p ( y ) k:ON k:UPDATE CASCADE ) ;")),
     "table_items": ("", sk("k:CREATE k:TABLE t1 ( a int k:UNIQUE , b int k:NULL k:CHECK ( b > 1 ) , k:PRIMARY k:KEY ( a ) , k:FOREIGN k:KEY ( b ) k:REFERENCES o ( x ) ) ;")),
     "table_mysql": ("", sk("k:CREATE k:TABLE t1 ( a int k:COMMENT l:'c~1' ) k:ENGINE = InnoDB k:DEFAULT c:CHARSET = utf8 ;")),
     "table_hql": ("", sk("k:CREATE k:EXTERNAL k:TABLE k:IF k:NOT k:EXISTS t1 ( a int , b string ) k:PARTITIONED k:BY ( p date ) k:STORED k:AS PARQUET k:LOCATION l:'s3://x/y' ;")),
     "alter_fk": (PRE, sk("k:ALTER k:TABLE s1 . t1 k:ADD k:CONSTRAINT fk1 k:FOREIGN k:KEY ( a ) k:REFERENCES o ( id ) ;")),
+    "alter_fk_update": (PRE, sk("k:ALTER k:TABLE s1 . t1 k:ADD k:FOREIGN k:KEY ( a ) k:REFERENCES o ( id ) k:ON k:UPDATE CASCADE ;")),
     "alter_drop": (PRE, sk("k:ALTER k:TABLE s1 . t1 s:DROP k:COLUMN a ;")),
     "alter_rename": (PRE, sk("k:ALTER k:TABLE s1 . t1 k:RENAME k:COLUMN a k:TO z ;")),
     "alter_modify": (PRE, sk("k:ALTER k:TABLE s1 . t1 k:MODIFY k:COLUMN a bigint ;")),
@@ -150,6 +153,7 @@ def run(tier, seed):
     for name in SKELETONS:
         plans.append((name, "upper", 1))
         plans.append((name, "lower", 1))
+        plans.append((name, "mixed", 0))
         if thorough:
             plans.append((name, "mixed", 1))
             plans.append((name, "upper", 2))
